@@ -420,6 +420,16 @@ func TestC10(t *testing.T) {
 			pair.Old.Normalize()
 			pair.New.Normalize()
 		}
+		if rapid.IntRange(0, 5).Draw(rt, "emptyold") == 0 {
+			// a first release: the old build is an empty directory (or has directories only)
+			keepDirs := rapid.Bool().Draw(rt, "emptyoldkeepdirs")
+			for p, e := range pair.Old {
+				if e.Kind != KDir || !keepDirs {
+					delete(pair.Old, p)
+				}
+			}
+			Ev.Probe("old_build_without_files")
+		}
 		dir, cleanup := RunDir()
 		defer cleanup()
 		oldDir, newDir := filepath.Join(dir, "old"), filepath.Join(dir, "new")
@@ -571,6 +581,37 @@ func TestC10(t *testing.T) {
 				Ev.Fault("block_range_duplicated_onto_edge_file", 1)
 				if runPatchSubjects(stream, fmt.Sprintf("msg %d BLOCK_RANGE(%d,%d,%d) duplicated with FileIndex=%d", i, op.FileIndex, op.BlockIndex, op.BlockSpan, fi), false) {
 					return
+				}
+			}
+		}
+		// enumerated: a harmless-looking block range (one block, index 0 or 1) put before and after the
+		// first operations of the patch, aimed at the first old file, the last one and one past it --
+		// whatever the old build has, none included
+		nOld := int64(len(rp.Target.Files))
+		aim := []int64{0}
+		for _, fi := range []int64{nOld - 1, nOld} {
+			if fi > 0 {
+				aim = append(aim, fi)
+			}
+		}
+		nops := 0
+		for i, m := range msgs {
+			if _, ok := m.(*pwr.SyncOp); !ok || nops >= 4 {
+				continue
+			}
+			nops++
+			for _, fi := range aim {
+				for _, bi := range []int64{0, 1} {
+					for _, after := range []int{0, 1} {
+						extra := &pwr.SyncOp{Type: pwr.SyncOp_BLOCK_RANGE, FileIndex: fi, BlockIndex: bi, BlockSpan: 1}
+						mut := append(append(append([]proto.Message{}, msgs[:i+after]...), extra), msgs[i+after:]...)
+						stream := encodeStream(MagicPatch, &pwr.PatchHeader{Compression: comp}, comp, mut)
+						Ev.Fault("block_range_inserted_at_container_edge", 1)
+						Ev.ProbeIf(nOld == 0, "block_range_aimed_at_an_old_build_without_files")
+						if runPatchSubjects(stream, fmt.Sprintf("BLOCK_RANGE(%d,%d,1) inserted at msg %d (old build has %d files)", fi, bi, i+after, nOld), false) {
+							return
+						}
+					}
 				}
 			}
 		}
